@@ -10,7 +10,11 @@ import SageModel.Model.C05
 `fasta <decoy-tag-hex> <generate_decoys> <text-hex>`
    reply: `panic` or `n (accession-hex sequence-hex)…` in file order
 
-Both are compared token for token (`Proto.exact`): everything is integers and byte strings, the
+`fastadigest <decoy-tag-hex> <generate_decoys> <text-hex> <7 opt builder fields as in digest> <k> <pool size>…`
+   reply: `panic` or `k` followed, per rayon pool size, by `n (accession-hex seq-hex mc position semi decoy)…`
+          sorted by the item's text (the multiset of `Fasta::digest`'s output under that pool)
+
+All are compared token for token (`Proto.exact`): everything is integers and byte strings, the
 order is the deterministic `Vec` order of the code.
 -/
 namespace Sage.C05
@@ -53,6 +57,27 @@ def pRec : P (Seq × Seq) := do
   let b ← bytes
   pure (a, b)
 
+def pBuilderOnly : P Builder := do
+  let mc ← opt nat
+  let mn ← opt nat
+  let mx ← opt nat
+  let cl ← opt bytes
+  let sk ← opt nat
+  let ct ← opt bool
+  let se ← opt bool
+  pure ⟨mc, mn, mx, cl, sk.map Nat.toUInt8, ct, se⟩
+
+def outItem (it : FItem) : String := s!"{hex it.acc} {outDigest it.d} {outBool it.decoy}"
+
+def pItem : P FItem := do
+  let a ← bytes
+  let d ← pDigest
+  let dec ← bool
+  pure ⟨a, d, dec⟩
+
+/-- canonical order: by the rendered text (ASCII, so Lean's and Rust's string orders coincide) -/
+def sortItems (l : List FItem) : List String := ((l.map outItem).toArray.qsort (· < ·)).toList
+
 def handle (op : String) (args impl : List String) : Option Reply :=
   match op with
   | "digest" => do
@@ -82,6 +107,23 @@ def handle (op : String) (args impl : List String) : Option Reply :=
         | none => "na"
         | some irecs => fastaVerdict tag gen text irecs
       pure (exact model (" ".intercalate impl) spec)
+  | "fastadigest" => do
+    let (tag, gen, text, b, pools) ← run (do
+      let t ← bytes; let g ← bool; let x ← bytes; let b ← pBuilderOnly; let ps ← list nat
+      pure (t, g, x, b, ps)) args
+    match b.toParams with
+    | none => pure (exact "panic" (" ".intercalate impl) "na")
+    | some par =>
+      match fastaDigest tag gen par text with
+      | none => pure (exact "panic" (" ".intercalate impl) "na")
+      | some items =>
+        let one := " ".intercalate (toString items.length :: sortItems items)
+        let model := " ".intercalate (toString pools.length :: pools.map fun _ => one)
+        let spec : String :=
+          match run (list (list pItem)) impl with
+          | none => "na"
+          | some ipools => if ipools.length != pools.length then "bad:pool_count" else fdVerdict tag gen par text ipools
+        pure (exact model (" ".intercalate impl) spec)
   | _ => none
 
 end Sage.C05
